@@ -31,6 +31,7 @@ Horizon == 40
 SendOps == {"send", "chsend", "chsendnot", "chsendreq", "chsendresp"}
 WaitKind(c) ==
   CASE c.op \in {"accept"} -> "select"
+    [] c.op = "recvdrip" -> "select"             \* a peer that trickles bytes: the context is looked at before every read
     [] c.op \in SendOps /\ c.tr = "inproc" -> IF FixInprocSendCtx THEN "select" ELSE "none"
     [] c.op \in SendOps /\ c.tr = "ws" -> IF FixWsSendDeadline THEN "select" ELSE "none"
        \* as written: the select wakes up, sets gorilla's deadline (used by the NEXT frame) and then waits
